@@ -337,7 +337,8 @@ func (s *solver) fallback(extra string, vars []string) (string, map[string]strin
 	defer cancel()
 	ch := make(chan ans, 3)
 	try := func(name string, args ...string) {
-		out, _ := exec.CommandContext(ctx, "sh", "-c", "ulimit -v 8000000; exec "+strings.Join(args, " ")).CombinedOutput()
+		// "timeout": a solver orphaned by a killed run must not live on
+		out, _ := exec.CommandContext(ctx, "sh", "-c", fmt.Sprintf("ulimit -v 8000000; exec timeout %d ", FallbackTimeout+5)+strings.Join(args, " ")).CombinedOutput()
 		txt := strings.TrimSpace(string(out))
 		first := txt
 		rest := ""
